@@ -25,6 +25,8 @@ pub enum Sym {
     SetFnBps(Vec<u8>),
     SetFnBpsIllTyped,
     SetInsnBps(Vec<u8>),
+    /// one instruction breakpoint (candidate 0) with an option
+    SetInsnBpOpt(BpOpt),
     ConfigurationDone,
     Threads,
     StackTrace,
@@ -69,7 +71,7 @@ impl Sym {
             Sym::AttachMissingPid => "attach",
             Sym::SetBps(_) | Sym::SetBpsMissingSource | Sym::SetBpsIllTyped => "setBreakpoints",
             Sym::SetFnBps(_) | Sym::SetFnBpsIllTyped => "setFunctionBreakpoints",
-            Sym::SetInsnBps(_) => "setInstructionBreakpoints",
+            Sym::SetInsnBps(_) | Sym::SetInsnBpOpt(_) => "setInstructionBreakpoints",
             Sym::ConfigurationDone => "configurationDone",
             Sym::Threads => "threads",
             Sym::StackTrace | Sym::StackTraceMissing | Sym::StackTraceIllTyped => "stackTrace",
@@ -93,6 +95,7 @@ impl Sym {
             Sym::SetBps(v) => format!("setBreakpoints{:?}", v),
             Sym::SetFnBps(v) => format!("setFunctionBreakpoints{:?}", v),
             Sym::SetInsnBps(v) => format!("setInstructionBreakpoints{:?}", v),
+            Sym::SetInsnBpOpt(o) => format!("setInstructionBreakpoints[0 {o:?}]"),
             Sym::Disconnect(t) => format!("disconnect(terminate={t})"),
             o => format!("{o:?}"),
         }
@@ -150,6 +153,11 @@ pub fn request(cx: &DapCtx, s: &Sym, seq: i64, thread_id: i64) -> Value {
         Sym::SetFnBps(v) => json!({"breakpoints": v.iter().map(|k| json!({"name": cx.fns[*k as usize]})).collect::<Vec<_>>()}),
         Sym::SetFnBpsIllTyped => json!({"breakpoints": {"name": 3}}),
         Sym::SetInsnBps(v) => json!({"breakpoints": v.iter().map(|k| json!({"instructionReference": format!("0x{:x}", cx.insns[*k as usize])})).collect::<Vec<_>>()}),
+        Sym::SetInsnBpOpt(o) => {
+            let mut b = opt_json(*o);
+            b["instructionReference"] = json!(format!("0x{:x}", cx.insns[0]));
+            json!({"breakpoints": [b]})
+        }
         Sym::ConfigurationDone => json!({}),
         Sym::Threads => json!({}),
         Sym::StackTrace => json!({"threadId": thread_id}),
@@ -189,6 +197,7 @@ pub struct DModel {
     pub line_bps: BTreeMap<u8, BpOpt>,
     pub fn_bps: BTreeSet<u8>,
     pub insn_bps: BTreeSet<u8>,
+    pub insn_opt: Option<BpOpt>,
     /// were the current sets sent before the process existed / before configurationDone?
     pub bps_set_phase: u8,
     /// lifecycle phase (0 before launch, 1 before configurationDone, 2 running) in which the
@@ -394,7 +403,16 @@ pub fn update_model(cx: &DapCtx, m: &mut DModel, sym: &Sym, obs: &Value) {
             m.fn_phase = phase;
             m.bps_set_phase = phase;
         }
+        Sym::SetInsnBpOpt(o) if success => {
+            m.insn_bps = [0u8].into_iter().collect();
+            m.insn_opt = Some(*o);
+            m.insn_phase = phase;
+            m.bps_set_phase = phase;
+            m.hits.clear();
+            m.hits_unknown = false;
+        }
         Sym::SetInsnBps(v) if success => {
+            m.insn_opt = None;
             m.insn_bps = v.iter().cloned().collect();
             m.insn_phase = phase;
             m.bps_set_phase = phase;
@@ -429,7 +447,7 @@ pub fn update_model(cx: &DapCtx, m: &mut DModel, sym: &Sym, obs: &Value) {
 pub fn canon(m: &DModel) -> String {
     format!(
         "{}{}{}{}|{:?}|{}{}{}|{:?}|{:?}|{:?}|{:?}|{:?}",
-        m.initialized as u8, m.launched as u8, m.configured as u8, m.cancelled_next as u8, m.idx.map(|i| i as i64).or(m.stopped_pc.map(|p| -(p as i64))), m.exited as u8, m.terminated as u8, m.ended as u8, m.line_bps, m.fn_bps, m.insn_bps, (m.line_phase, m.prev_line_phase, m.fn_phase, m.insn_phase, m.hits_unknown), m.hits
+        m.initialized as u8, m.launched as u8, m.configured as u8, m.cancelled_next as u8, m.idx.map(|i| i as i64).or(m.stopped_pc.map(|p| -(p as i64))), m.exited as u8, m.terminated as u8, m.ended as u8, m.line_bps, m.fn_bps, (&m.insn_bps, m.insn_opt), (m.line_phase, m.prev_line_phase, m.fn_phase, m.insn_phase, m.hits_unknown), m.hits
     )
 }
 
